@@ -55,6 +55,7 @@ def tasks(tier):
                 ts.append(("A", ct, g, first, n))
                 ts.append(("B", ct, g, first, n))
     ts.append(("small",))
+    ts.append(("narrowint",))
     for ct in ("std", "range"):
         for first in SIGMA:
             ts.append(("units", ct, first, n))
@@ -81,6 +82,12 @@ def check_case(case):
     if sc is not None:
         # the same record in other units: values and thresholds multiplied by 2**sc (exact), same verdicts
         data = data * (2.0 ** sc)
+    if case.get("data") in ("int16", "int8", "int16ma"):
+        # narrow integer storage (packed counts): the spread must be computed without wrapping in the storage type
+        dtn = "int8" if case["data"] == "int8" else "int16"
+        miss = [v in (alpha.NAN, None) for v in x]
+        arr = np.array([0 if m else int(v) for v, m in zip(x, miss)], dtype=dtn)
+        data = np.ma.MaskedArray(arr, mask=miss) if (case["data"] == "int16ma" or any(miss)) else arr
     if case.get("data") == "ma":  # masked array with a finite value hidden under the mask
         miss = [v in (alpha.NAN, None) for v in x]
         data = np.ma.MaskedArray(np.array([50.0 if m else float(v) for v, m in zip(x, miss)]), mask=miss)
@@ -132,6 +139,16 @@ def run_task(task, acc):
                             continue  # sub-second axis: "min_period / sampling step" depends on how the step is rounded - not judged
                         for s, f in THR3:
                             yield dict(x=x, gaps=list(GAPSETS[g]), check_type=ct, suspect=s, fail=f, test_period=tp, min_obs=mo, min_period=mp)
+        run_cases(acc, gen(), check_case)
+    elif kind == "narrowint":
+        def gen():
+            for data, al in (("int16", (-20000.0, 18000.0, 0.0, alpha.NAN)), ("int16ma", (-20000.0, 18000.0, 0.0, alpha.NAN)), ("int8", (-100.0, 90.0, 3.0, alpha.NAN))):
+                big = 38000.0 if data != "int8" else 190.0
+                for ct in ("std", "range"):
+                    for x in alpha.all_seqs(al, 2, 4):
+                        for tp in (None, 120):
+                            for s_, f_ in ((big * 1.5, big / 4), (big / 2, big / 8), (big * 2, big * 1.2)):
+                                yield dict(x=list(x), gaps=list(GAPSETS[0]), check_type=ct, suspect=s_, fail=f_, test_period=tp, data=data)
         run_cases(acc, gen(), check_case)
     elif kind == "units":
         _, ct, first, n = task
